@@ -150,7 +150,7 @@ def main():
                 continue
             hit = [p for p, r in res.items() if r["exit"] == 1]
             err = [p for p, r in res.items() if r["exit"] == 2]
-            benign = name.split("-")[-1] in ("r", "s", "t", "u", "v", "w", "x", "y")
+            benign = name.split("-")[-1] in ("r", "s", "t", "u", "v", "w", "x", "y", "z", "q")
             word = "FALSE ALARM in" if benign and hit else "silent" if benign else "caught by:"
             print(f"{name:12s} {word} {', '.join(hit) or ('' if benign else '-')}" + (f"   analysis-error: {', '.join(err)}" if err else ""))
             for p in hit + err:
